@@ -88,12 +88,15 @@ def judge(script, obs, kinds):
         d = delivered.get(t, 0)
         infl = inflight[2] if inflight and inflight[0] == 'append' and inflight[1] == t else []
         rin = inflight[2] if inflight and inflight[0] == 'read' and inflight[1] == t else None
+        # empty payloads are indistinguishable: every empty entry is mapped to the smallest uid with an empty payload
+        empties = [u for u in ack + infl if lens[u] == 0]
+        canon = lambda u: min(empties) if (u in empties) else u
+        ack = [canon(u) for u in ack]
+        infl = [canon(u) for u in infl]
         ids = []
         for g in drained.get(t, []):
             if g == 'empty':
-                cands = [u for u in ack + infl if lens[u] == 0]
-                fresh = [u for u in cands if u not in ids]
-                g = fresh[0] if fresh else (cands[0] if cands else None)
+                g = min(empties) if empties else None
             ids.append(g)
         if None in ids:
             bad.append(('c07-foreign', -1, 'topic %s: unknown payload after recovery: %s' % (t, ids)))
